@@ -179,6 +179,7 @@ func runCheck(prop, tier string, verbose bool) int {
 	known := loadKnown()
 	applyKnownRegions(s, prop, reps, known)
 	SolveAll(dir, reps, timeout, all)
+	lemmaDB = s.DB
 	lemmas := runLemmas(dir, prop, cfg, timeout)
 
 	res := summarize(s, prop, tier, reps, lemmas, known, missing, verbose)
